@@ -58,6 +58,20 @@ type Track struct {
 	PktDelay  int64  `json:"pkt_delay_max_ns"`
 	SRDelay   int64  `json:"sr_delay_max_ns"`
 	SndLinger int64  `json:"snd_linger_ns"` // the sender stays open this long after its last packet
+	// StepNS != 0: the absolute time the writer associates with its timestamps is corrected by
+	// StepNS (forwards or backwards: the source's clock was set) from the packet with identity StepN
+	// on - a PTS==DTS packet. The writer's own system clock (what its Sender reads between
+	// packets) runs on undisturbed.
+	StepN  int   `json:"step_n,omitempty"`
+	StepNS int64 `json:"step_ns,omitempty"`
+}
+
+// stepOf returns the correction that applies to packet i of a track.
+func stepOf(tr *Track, i int) int64 {
+	if tr.StepNS != 0 && tr.Pkts[i].N >= tr.StepN {
+		return tr.StepNS
+	}
+	return 0
 }
 
 // Scenario is one C15 run.
@@ -194,6 +208,13 @@ func validate(sc *Scenario) error {
 	}
 	if sc.BaseUnixNS < 0 || sc.BaseUnixNS+end+int64(time.Second) >= eraEndNS {
 		return fmt.Errorf("instants outside 1970..2036-02-07")
+	}
+	for ti := range sc.Tracks {
+		if st := sc.Tracks[ti].StepNS; st != 0 {
+			if sc.BaseUnixNS+st < 0 || sc.BaseUnixNS+end+st+int64(time.Second) >= eraEndNS {
+				return fmt.Errorf("track %d: corrected instants outside 1970..2036-02-07", ti)
+			}
+		}
 	}
 	return nil
 }
@@ -468,6 +489,27 @@ func gen(seed uint64, tier string) Scenario {
 	if sc.BaseUnixNS < 0 {
 		sc.BaseUnixNS = 0
 	}
+	// a correction of the writer's absolute time in the middle of a track (hash-derived so that no
+	// other choice moves)
+	if x := core.HS(seed, "c15.step", "", 0); x%100 < 15 {
+		tr := &sc.Tracks[int((x>>8)%uint64(len(sc.Tracks)))]
+		var cands []int
+		for i := 1; i < len(tr.Pkts); i++ {
+			if !tr.Pkts[i].B {
+				cands = append(cands, i)
+			}
+		}
+		if len(cands) > 0 {
+			i := cands[int((x>>16)%uint64(len(cands)))]
+			st := []int64{int64(time.Millisecond), int64(time.Second), 37*int64(time.Second) + 13, int64(time.Hour), 3 * int64(24*time.Hour)}[(x>>32)%5]
+			if (x>>40)%3 != 0 {
+				st = -st // mostly backwards
+			}
+			if sc.BaseUnixNS+st >= 0 && sc.BaseUnixNS+end+st+int64(2*time.Second) < eraEndNS {
+				tr.StepN, tr.StepNS = tr.Pkts[i].N, st
+			}
+		}
+	}
 	return sc
 }
 
@@ -520,6 +562,8 @@ type trk struct {
 	lastSRDeliv  int64
 	lastSRCapNS  int64
 	srProcessed  bool
+	capStep      []int64 // correction in force at the sender when report j was captured
+	srStep       int64   // ... of the report processed last
 
 	// PTS continuation
 	accepted bool
@@ -772,6 +816,14 @@ func (s *sim) drain() {
 			t.nCap++
 			t.writtenAtCap = append(t.writtenAtCap, t.written)
 			t.capNS = append(t.capNS, c.at)
+			cs := int64(0)
+			for k := t.written - 1; k >= 0; k-- {
+				if !t.spec.Pkts[k].B { // the Sender's reference is the last PTS==DTS packet
+					cs = stepOf(t.spec, k)
+					break
+				}
+			}
+			t.capStep = append(t.capStep, cs)
 			s.res.Probes["report_captured"]++
 			var d int64
 			if t.spec.SRDelay > 0 {
@@ -812,6 +864,10 @@ func (s *sim) handle(e *ev) {
 		t.srDelivered = e.idx + 1
 		t.srProcessed = true
 		t.lastSRCapNS = t.capNS[e.idx]
+		if t.capStep[e.idx] != t.srStep {
+			s.res.Probes["report_after_time_correction"]++
+		}
+		t.srStep = t.capStep[e.idx]
 		s.res.Probes["report_processed"]++
 		s.logf("S t=%d tr=%d j=%d", s.now(), t.i, e.idx)
 	case evCloseSnd:
@@ -835,13 +891,18 @@ func (s *sim) write(t *trk, i int) {
 	// the instant of its tick, rounded down to ns); for a B packet it is the
 	// instant of its tick on the same line.
 	var ntpT time.Time
+	step := stepOf(t.spec, i)
+	if step != 0 {
+		s.res.Faults["writer.time_corrected"]++
+	}
 	if p.B {
-		ntpT = time.Unix(0, s.instantNS(t, p.K))
+		ntpT = time.Unix(0, s.instantNS(t, p.K)+step)
 	} else {
 		ntpT = s.wall()
 		if got, want := ntpT.UnixNano(), s.instantNS(t, p.K); got != want {
 			s.fail("c15/harness clock", "track %d packet %d written at %d, association says %d", t.i, i, got, want)
 		}
+		ntpT = ntpT.Add(time.Duration(step))
 	}
 	s.checkNTPRoundTrip("packet instant", ntpT.UnixNano())
 	t.capAtWrite[i] = t.nCap
@@ -951,20 +1012,27 @@ func (s *sim) deliver(t *trk, i int) {
 			s.res.Probes["ntp_silent_ambiguous"]++
 		case !ok2:
 			s.fail("c15/packet-ntp track", "track %d packet i=%d: PacketNTP unavailable although a sender report was processed", t.i, i)
+		case stepOf(t.spec, i) != t.srStep:
+			// the packet was written before (after) a correction of the writer's absolute time, the
+			// report processed last was produced after (before) it: they are on different lines
+			s.res.Probes["ntp_silent_other_line"]++
 		default:
 			s.ntpChecks++
 			if p.B {
 				s.res.Probes["ntp_checked_on_b_packet"]++
 			}
 			// exact: |got - (base + start + K/rate s)| <= 1 tick + 3 ns
-			g := big.NewInt(ntpNS - s.sc.BaseUnixNS - t.spec.StartNS)
+			g := big.NewInt(ntpNS - s.sc.BaseUnixNS - t.spec.StartNS - t.srStep)
 			g.Mul(g, big.NewInt(rate))
+			if t.srStep != 0 {
+				s.res.Probes["ntp_checked_after_time_correction"]++
+			}
 			e := big.NewInt(p.K)
 			e.Mul(e, big.NewInt(1e9))
 			g.Sub(g, e) // (got - want) * rate, in ns*ticks/s
 			tol := big.NewInt(1e9 + 3*rate)
 			if new(big.Int).Abs(g).Cmp(tol) > 0 {
-				want := s.instantNS(t, p.K)
+				want := s.instantNS(t, p.K) + t.srStep
 				s.fail("c15/packet-ntp track",
 					"track %d (rate %d) packet i=%d n=%d ts=%d k=%d b=%v: PacketNTP = %d ns (%s), writer's instant for this timestamp = %d ns (%s): off by %d ns, allowed %d ns (one tick) + 3 ns; last report captured at bubble t=%d",
 					t.i, rate, i, p.N, pkt.Timestamp, p.K, p.B, ntpNS, ntpT.UTC().Format(time.RFC3339Nano),
@@ -1041,7 +1109,7 @@ var probeNames = []string{
 	"ts_wrapped_2_32", "ts_wrapped_3plus_in_track", "backward_step", "late_track_started", "late_track_anchor_ambiguous",
 	"late_track_off_more_than_one_tick_each", "report_captured", "report_processed", "instant_before_2000",
 	"instant_after_2030", "decode_refused_before_anchor", "decode_refused_after_accept", "ntp_silent_ambiguous",
-	"ntp_checked_on_b_packet", "invalid_scenario",
+	"ntp_checked_on_b_packet", "invalid_scenario", "report_after_time_correction", "ntp_silent_other_line", "ntp_checked_after_time_correction",
 }
 
 func run(t *testing.T, sc Scenario) *core.Result {
@@ -1185,8 +1253,13 @@ func shrink(sc Scenario) []Scenario {
 			add(c)
 		}
 	}
-	// no link delays, no linger, aligned starts
+	// no link delays, no linger, aligned starts, no time correction
 	for i, t := range sc.Tracks {
+		if t.StepNS != 0 {
+			c := clone(sc)
+			c.Tracks[i].StepNS, c.Tracks[i].StepN = 0, 0
+			add(c)
+		}
 		if t.PktDelay != 0 {
 			c := clone(sc)
 			c.Tracks[i].PktDelay = 0
@@ -1273,7 +1346,7 @@ func init() {
 		"instants in NTP era 1 (after 2036-02-07 06:28:16 UTC) and before 1970",
 		"sender reports reordered among themselves",
 	}
-	f.Rule = "scenario = 1..3 tracks x clock rate (8000/16000/44100/48000/90000 or arbitrary 1..4e6) x initial timestamp (uniform, edge values, or just below 2^32) x step class (frame cadence incl. repeated timestamps / jitter / 2^24..2^30 / up to 2^31-1 / mixed) x optional B packets (backward steps, PTS!=DTS, also before the first anchor) x start offset of tracks 2,3 x sender/receiver report period x max link delay for packets and for reports (independent) x wall-clock base in 1970..2036 (uniform, whole seconds, .999999999, first day of 1970, last day of NTP era 0, around 2000). A run is non-trivial when at least one PTS difference and at least one PacketNTP value were checked. Distinct = distinct hash of the complete event log (writes, report captures, deliveries with the decoded PTS and NTP values)."
+	f.Rule = "scenario = 1..3 tracks x clock rate (8000/16000/44100/48000/90000 or arbitrary 1..4e6) x initial timestamp (uniform, edge values, or just below 2^32) x step class (frame cadence incl. repeated timestamps / jitter / 2^24..2^30 / up to 2^31-1 / mixed) x optional B packets (backward steps, PTS!=DTS, also before the first anchor) x start offset of tracks 2,3 x sender/receiver report period x max link delay for packets and for reports (independent) x optional correction of the writer's absolute time in the middle of a track (+-1 ms .. 3 days, mostly backwards; checks resume with the first report produced after it) x wall-clock base in 1970..2036 (uniform, whole seconds, .999999999, first day of 1970, last day of NTP era 0, around 2000). A run is non-trivial when at least one PTS difference and at least one PacketNTP value were checked. Distinct = distinct hash of the complete event log (writes, report captures, deliveries with the decoded PTS and NTP values)."
 	f.Assumptions = []string{
 		"GlobalDecoder.Decode returns the PTS in ticks of the track's clock rate (its doc comment names no unit; the returned values of the first track start at 0 and move by exactly the timestamp difference), so oracle 1 is exact: PTS(n) - PTS(first decoded packet of the track) == K(n) - K(first), where K is the writer's 64-bit timeline; the harness also checks that K differences equal the literal sum of int32(ts[i]-ts[i-1]) over the decoded packets",
 		"packets for which Decode returns false (packets with PTS!=DTS before the track's first PTS==DTS packet) are outside oracle 1; a refusal after a track was accepted is only counted (probe decode_refused_after_accept), the statement does not speak about it",
